@@ -6,7 +6,7 @@ use fnv::FnvHasher;
 use probminhash::densminhash::{OptDensMinHash, RevOptDensMinHash};
 use probminhash::fyshuffle::FYshuffle;
 use probminhash::setsketcher::{SetSketchParams, SetSketcher};
-use probminhash::superminhasher::SuperMinHash;
+use probminhash::superminhasher::{NoHashHasher, SuperMinHash};
 use probminhash::superminhasher2::SuperMinHash2;
 use rand::distr::{Distribution, Uniform};
 use rand::prelude::*;
@@ -198,8 +198,28 @@ where
             SsOp::Merge { m: m2, q: q2, b: b2, a: a2, items } => {
                 let p2 = SetSketchParams::new(*b2, *m2, *a2, *q2);
                 let mut o = SetSketcher::<I, u64, FnvHasher>::new(p2, BuildHasherDefault::<FnvHasher>::default());
-                for it in items {
-                    o.sketch(it).unwrap();
+                // the sketcher merged in is built either by streaming its items or - same registers, by the merge
+                // theorems - as an accumulator that only ever saw merges of partial sketchers (tree reduction)
+                if items.len() >= 2 && rng.coin(0.5) {
+                    let cut = 1 + rng.below(items.len() as u64 - 1) as usize;
+                    let stream_first = rng.coin(0.3);
+                    for (ci, chunk) in [&items[..cut], &items[cut..]].iter().enumerate() {
+                        if ci == 0 && stream_first {
+                            for it in chunk.iter() {
+                                o.sketch(it).unwrap();
+                            }
+                            continue;
+                        }
+                        let mut part = SetSketcher::<I, u64, FnvHasher>::new(p2, BuildHasherDefault::<FnvHasher>::default());
+                        for it in chunk.iter() {
+                            part.sketch(it).unwrap();
+                        }
+                        o.merge(&part).unwrap();
+                    }
+                } else {
+                    for it in items {
+                        o.sketch(it).unwrap();
+                    }
                 }
                 let r = s.merge(&o);
                 merges.push(if r.is_ok() { 1 } else { 0 });
@@ -431,6 +451,10 @@ macro_rules! dens_case {
         let unit = Uniform::<$F>::new(0 as $F, 1 as $F).unwrap();
         let unif = Uniform::<usize>::new(0, m).unwrap();
         let mut outcome = 0i128; // 0 ok, 1 panic, 2 hang
+        let mut oplog: Vec<String> = Vec::new();
+        let sname = stringify!($S);
+        let fname = stringify!($F);
+        let hname = stringify!($H);
         let mut emit_item = |w: &mut W, it: u64| {
             let h = $hashfn(it);
             let mut g = Xoshiro256PlusPlus::seed_from_u64(h);
@@ -447,15 +471,19 @@ macro_rules! dens_case {
                 let it = rng.below(space);
                 w.push(0);
                 emit_item(&mut w, it);
+                oplog.push(format!("sketch({})", it));
                 s.sketch(&it);
                 nwire += 1;
             } else if c < 5 {
+                oplog.push("reinit".into());
                 s.reinit();
                 w.push(1);
                 nwire += 1;
             } else if c < 7 {
                 w.push(2);
                 nwire += 1;
+                oplog.push("end_sketch".into());
+                crate::util::tick(|| json!({"sketcher": sname, "float": fname, "hasher": hname, "m": m, "ops": oplog}).to_string());
                 if nothing && m > 0 {
                     // may never return: run it on a copy-free separate thread with a time limit
                     let mut s2 = $S::<$F, u64, $H>::new(m, BuildHasherDefault::<$H>::default());
@@ -470,6 +498,8 @@ macro_rules! dens_case {
             } else {
                 let n = if rng.coin(0.2) { 0 } else { rng.range(1, 3 * m as u64 + 2) };
                 let items: Vec<u64> = (0..n).map(|_| rng.below(space)).collect();
+                oplog.push(format!("sketch_slice({:?})", items));
+                crate::util::tick(|| json!({"sketcher": sname, "float": fname, "hasher": hname, "m": m, "ops": oplog}).to_string());
                 w.push(3);
                 w.push(items.len() as i128);
                 for it in &items { emit_item(&mut w, *it); }
@@ -654,7 +684,7 @@ pub fn props(args: &[String]) {
     let mut tried = 0u64;
     // corpus: minimised failures found earlier run first
     {
-        use probminhash::superminhasher::NoHashHasher;
+
         let w = [12219713845869936640u64, 10, 64];
         let a = smh_sketch_of!(f32, NoHashHasher, 4, vec![vec![w[0]], vec![w[1]], vec![w[2]]]);
         let b = smh_sketch_of!(f32, NoHashHasher, 4, vec![vec![w[1]], vec![w[0]], vec![w[2]]]);
@@ -671,7 +701,27 @@ pub fn props(args: &[String]) {
         }
         tried += 2;
     }
+    // an item whose hash equals the empty-bin marker u64::MAX, first in its bin, then replaced by another item of the bin
+    for m in [1usize, 2, 16] {
+        tried += 1;
+        crate::util::tick_idx(0, json!({"m": m, "items": "u64::MAX then 0..200 (NoHashHasher)"}));
+        for x in 0..200u64 {
+            let stream = vec![u64::MAX, x];
+            let r = catch_unwind(AssertUnwindSafe(|| dens_views!(OptDensMinHash, f64, NoHashHasher, m, &stream, false)));
+            let r2 = catch_unwind(AssertUnwindSafe(|| dens_views!(OptDensMinHash, f64, NoHashHasher, m, &vec![x, u64::MAX], false)));
+            match (r, r2) {
+                (Ok((f1, u1, _)), Ok((f2, u2, _))) => {
+                    if f1.iter().any(|b| !(f64::from_bits(*b) < 1.0)) || (f1, u1) != (f2, u2) {
+                        add("dens-marker-hash", format!("OptDensMinHash<f64,u64,NoHashHasher> m={}: the stream [u64::MAX, {}] leaves a position unfilled or depends on order", m, x), json!({"m": m, "items": vj(&stream), "hasher": "superminhasher::NoHashHasher"}));
+                        break;
+                    }
+                }
+                _ => { add("dens-marker-hash", format!("OptDensMinHash<f64,u64,NoHashHasher> m={}: sketching [u64::MAX, {}] and end_sketch panics", m, x), json!({"m": m, "items": vj(&stream), "hasher": "superminhasher::NoHashHasher"})); break; }
+            }
+        }
+    }
     for round in 0..n {
+        crate::util::tick_idx(round as u64, serde_json::Value::Null);
         let m = if rng.coin(0.5) { rng.range(1, 8) } else { rng.range(1, 256) } as usize;
         let nitems = if rng.coin(0.3) { rng.range(1, 4) } else { rng.range(1, 200) } as usize;
         let special = round % 5 == 0;
@@ -680,6 +730,7 @@ pub fn props(args: &[String]) {
             let x = if special && rng.coin(0.3) { let t = roundup_seeds(); t[rng.below(t.len() as u64) as usize] } else { rng.next_u64() >> rng.below(40) };
             if !items.contains(&x) { items.push(x); }
         }
+        crate::util::tick_idx(round as u64, json!({"m": m, "items": vj(&items), "note": "one of SuperMinHash / SuperMinHash2 / SetSketch / OptDensMinHash / RevOptDensMinHash did not return on these items (sketch size m), streamed in this order, shuffled with repetitions, or in chunks"}));
         let re = rearranged(&mut rng, &items);
         let c1 = vec![items.clone()];
         let c2 = chunks(&mut rng, &re);
@@ -687,6 +738,7 @@ pub fn props(args: &[String]) {
         let inp = json!({"m": m, "items": vj(&items), "rearranged": vj(&re), "chunks": c2.iter().map(|c| vj(c)).collect::<Vec<_>>()});
         let r = catch_unwind(AssertUnwindSafe(|| {
             let mut v: Vec<(String, String)> = Vec::new();
+            let mut reinit_inputs: Vec<Value> = Vec::new();
             // SuperMinHash f32 (identity hasher: rounding-up seeds reach the sketcher), f64 fnv
             let a = smh_sketch_of!(f32, IdHasher, m, c1);
             let b = smh_sketch_of!(f32, IdHasher, m, c2);
@@ -730,6 +782,26 @@ pub fn props(args: &[String]) {
             let snap = ma.get_signature().clone();
             let _ = ma.merge(&mb);
             if *ma.get_signature() != snap { v.push(("ss-merge-idem".into(), "SetSketch merge is not idempotent".into())); }
+            // tree reduction through an accumulator that only ever saw merges, then further streaming:
+            // acc = new; acc.merge(A); acc.merge(B); root = sketch(C); root.merge(acc); root.sketch(D)  ==  sketch(A u B u C u D)
+            {
+                let q1 = items.len() / 4;
+                let (ia, ib, ic, id) = (&items[..q1], &items[q1..2 * q1], &items[2 * q1..3 * q1], &items[3 * q1..]);
+                let sk = |xs: &[u64]| ss_sketch_of!(u16, params, if xs.is_empty() { vec![] } else { vec![xs.to_vec()] });
+                let mut acc = sk(&[]);
+                let _ = acc.merge(&sk(ia));
+                let _ = acc.merge(&sk(ib));
+                let mut root = sk(ic);
+                let _ = root.merge(&acc);
+                for it in id { let _ = root.sketch(it); }
+                if root.get_signature() != sa.get_signature() {
+                    v.push(("ss-merge-tree".into(), format!("SetSketch: merging an accumulator built only by merges, then streaming, differs from the sketch of the union (m={}, {} items)", m, items.len())));
+                }
+                // associativity: (A u B) u C  vs  A u (B u C)
+                let mut l1 = sk(ia); let _ = l1.merge(&sk(ib)); let _ = l1.merge(&sk(ic));
+                let mut r1 = sk(ib); let _ = r1.merge(&sk(ic)); let mut r2 = sk(ia); let _ = r2.merge(&r1);
+                if l1.get_signature() != r2.get_signature() { v.push(("ss-merge-assoc".into(), format!("SetSketch merge is not associative (m={})", m))); }
+            }
             let minreg = *ma.get_signature().iter().min().unwrap() as i64;
             if ma.get_low_sketch() > minreg { v.push(("ss-low".into(), format!("get_low_sketch {} exceeds the smallest register {}", ma.get_low_sketch(), minreg))); }
             // refused merge leaves the receiver unchanged
@@ -737,6 +809,147 @@ pub fn props(args: &[String]) {
             let pre = (ma.get_signature().clone(), ma.get_low_sketch(), ma.get_nb_overflow());
             let r = ma.merge(&other);
             if r.is_ok() || (ma.get_signature().clone(), ma.get_low_sketch(), ma.get_nb_overflow()) != pre { v.push(("ss-merge-mismatch".into(), "merge with a different m is accepted or changes the receiver".into())); }
+            // reinit / reset: whatever the sketcher saw before, the next sketch is that of a new sketcher (C13).
+            // histories: a previous stream of 1, 2, 3 or many items; a merge-only history (SetSketch); finished and
+            // unfinished densification; the next stream smaller or larger than the previous one
+            {
+                let kprev = [1usize, 1, 2, 3, items.len()][rng.below(5) as usize].min(items.len());
+                let prev: Vec<u64> = items[..kprev].to_vec();
+                let knext = if rng.coin(0.5) { 1 + rng.below(3) as usize } else { 1 + rng.below(items.len() as u64) as usize }.min(items.len());
+                let next: Vec<u64> = items[items.len() - knext..].to_vec();
+                let hist = json!({"m": m, "before_reinit": vj(&prev), "after_reinit": vj(&next)});
+                // SuperMinHash f64 / f32
+                let mut s = SuperMinHash::<f64, u64, FnvHasher>::new(m, BuildHasherDefault::<FnvHasher>::default());
+                for it in &prev { s.sketch(it).unwrap(); }
+                s.reinit();
+                for it in &next { s.sketch(it).unwrap(); }
+                let got: Vec<u64> = s.get_hsketch().iter().map(|x| x.to_bits() as u64).collect();
+                if got != smh_sketch_of!(f64, FnvHasher, m, vec![next.clone()]) && next.len() > 1 || (next.len() == 1 && got != smh_sketch_of!(f64, FnvHasher, m, vec![vec![next[0]]])) {
+                    v.push(("reinit-smh".into(), format!("SuperMinHash<f64>: after {} item(s) and reinit, the sketch of {} item(s) differs from that of a new sketcher (m={})", prev.len(), next.len(), m)));
+                    reinit_inputs.push(hist.clone());
+                }
+                let mut s2 = SuperMinHash2::<u64, u64, FnvHasher>::new(m, BuildHasherDefault::<FnvHasher>::default());
+                for it in &prev { s2.sketch(it).unwrap(); }
+                s2.reinit();
+                for it in &next { s2.sketch(it).unwrap(); }
+                let mut f2 = SuperMinHash2::<u64, u64, FnvHasher>::new(m, BuildHasherDefault::<FnvHasher>::default());
+                for it in &next { f2.sketch(it).unwrap(); }
+                if s2.get_hsketch() != f2.get_hsketch() {
+                    v.push(("reinit-smh2".into(), format!("SuperMinHash2: after {} item(s) and reinit, the sketch of {} item(s) differs from that of a new sketcher (m={})", prev.len(), next.len(), m)));
+                    reinit_inputs.push(hist.clone());
+                }
+                // SetSketch: streamed history and merge-only history
+                let params = SetSketchParams::new(1.001, m as u64, 20., 65534);
+                for merge_only in [false, true] {
+                    let mut ss = SetSketcher::<u16, u64, FnvHasher>::new(params, BuildHasherDefault::<FnvHasher>::default());
+                    if merge_only {
+                        let part = ss_sketch_of!(u16, params, vec![items.clone()]);
+                        ss.merge(&part).unwrap();
+                    } else {
+                        for it in &items { ss.sketch(it).unwrap(); }
+                    }
+                    ss.reinit();
+                    for it in &next { ss.sketch(it).unwrap(); }
+                    let fresh = ss_sketch_of!(u16, params, vec![next.clone()]);
+                    let fresh1 = if next.len() == 1 { let mut f = SetSketcher::<u16, u64, FnvHasher>::new(params, BuildHasherDefault::<FnvHasher>::default()); f.sketch(&next[0]).unwrap(); f } else { fresh };
+                    if ss.get_signature() != fresh1.get_signature() || ss.get_low_sketch() != fresh1.get_low_sketch() {
+                        v.push(("reinit-ss".into(), format!("SetSketch: after a history of {} ({} items) and reinit, the sketch of {} item(s) differs from that of a new sketcher (m={})",
+                            if merge_only { "merges only" } else { "streaming" }, items.len(), next.len(), m)));
+                        reinit_inputs.push(json!({"m": m, "b": 1.001, "a": 20, "q": 65534, "history": if merge_only { "new; merge(sketch of before_reinit); reinit" } else { "new; sketch each of before_reinit; reinit" },
+                                                  "before_reinit": vj(&items), "after_reinit": vj(&next)}));
+                    }
+                }
+                // densified sketchers: previous sketch finished or not
+                macro_rules! dens_reinit {
+                    ($S:ident, $key:expr) => {{
+                        for finished in [true, false] {
+                            let mut d = $S::<f64, u64, FnvHasher>::new(m, BuildHasherDefault::<FnvHasher>::default());
+                            for it in &prev { d.sketch(it); }
+                            if finished { let _ = d.end_sketch(); }
+                            d.reinit();
+                            let r = catch_unwind(AssertUnwindSafe(|| { for it in &next { d.sketch(it); } let _ = d.end_sketch(); (d.get_hsketch().iter().map(|x| x.to_bits() as u64).collect::<Vec<u64>>(), d.get_hsketch_u64()) }));
+                            let (ff, fu, _) = dens_views!($S, f64, FnvHasher, m, &next, false);
+                            match r {
+                                Err(_) => { v.push(($key.into(), format!("{}: after {} item(s){} and reinit, sketching {} item(s) and end_sketch panics (m={})", stringify!($S), prev.len(), if finished { ", end_sketch" } else { "" }, next.len(), m))); reinit_inputs.push(hist.clone()); }
+                                Ok((gf, gu)) => if gf != ff || gu != fu {
+                                    v.push(($key.into(), format!("{}: after {} item(s){} and reinit, the sketch of {} item(s) differs from that of a new sketcher (m={})", stringify!($S), prev.len(), if finished { ", end_sketch" } else { "" }, next.len(), m)));
+                                    reinit_inputs.push(hist.clone());
+                                }
+                            }
+                        }
+                    }};
+                }
+                dens_reinit!(OptDensMinHash, "reinit-optdens");
+                dens_reinit!(RevOptDensMinHash, "reinit-revdens");
+                // a finished densified sketch may be streamed further and finished again (C09)
+                macro_rules! dens_resume {
+                    ($S:ident) => {{
+                        let mut d = $S::<f64, u64, FnvHasher>::new(m, BuildHasherDefault::<FnvHasher>::default());
+                        let r = catch_unwind(AssertUnwindSafe(|| {
+                            for it in &prev { d.sketch(it); }
+                            let _ = d.end_sketch();
+                            for it in &items { d.sketch(it); }
+                            let _ = d.end_sketch();
+                            d.get_hsketch_u64()
+                        }));
+                        match r {
+                            Err(_) => { v.push(("dens-resume".into(), format!("{}: sketch {} item(s), end_sketch, sketch {} more, end_sketch: panics although items were streamed (m={})", stringify!($S), prev.len(), items.len(), m))); reinit_inputs.push(json!({"m": m, "first": vj(&prev), "then": vj(&items)})); }
+                            Ok(u) => if u.iter().any(|h| !items.iter().any(|x| fnv(*x) == *h)) {
+                                v.push(("dens-resume".into(), format!("{}: after end_sketch, further items and end_sketch, a position holds a hash that was never streamed (m={})", stringify!($S), m))); reinit_inputs.push(json!({"m": m, "first": vj(&prev), "then": vj(&items)}));
+                            }
+                        }
+                    }};
+                }
+                dens_resume!(OptDensMinHash);
+                dens_resume!(RevOptDensMinHash);
+            }
+            // parameters that differ slightly (relative 1e-7 .. 1e-12 on b or a) are different parameters: refused, receiver unchanged
+            {
+                let rel = [1e-7f64, 1e-9, 1e-12][rng.below(3) as usize];
+                let (pb, pa) = if rng.coin(0.5) { (params.get_b() * (1. + rel), params.get_a()) } else { (params.get_b(), params.get_a() * (1. + rel)) };
+                if pb <= 2.0 {
+                    let near = SetSketchParams::new(pb, m as u64, pa, params.get_q());
+                    let mut other = SetSketcher::<u16, u64, FnvHasher>::new(near, BuildHasherDefault::<FnvHasher>::default());
+                    for it in items.iter().take(20) { other.sketch(&(it ^ 0xABCDEF)).unwrap(); }
+                    let mut recv = ss_sketch_of!(u16, params, vec![items.clone()]);
+                    let pre = (recv.get_signature().clone(), recv.get_low_sketch(), recv.get_nb_overflow());
+                    let r = recv.merge(&other);
+                    if r.is_ok() || (recv.get_signature().clone(), recv.get_low_sketch(), recv.get_nb_overflow()) != pre {
+                        v.push(("ss-merge-mismatch".into(), format!("merge with parameters b={:e} a={:e} into b={:e} a={:e} (relative difference {:e}) is accepted or changes the receiver (m={})", pb, pa, params.get_b(), params.get_a(), rel, m)));
+                    }
+                }
+            }
+            // from the same earlier history (items streamed, sketch finished or not), sketch_slice(b) = sketch each of b, end_sketch (C09)
+            {
+                let cut = rng.below(items.len() as u64 + 1) as usize;
+                let finish_first = rng.coin(0.6);
+                macro_rules! slice_vs_itemwise {
+                    ($S:ident) => {{
+                        let r = catch_unwind(AssertUnwindSafe(|| {
+                            let mut d1 = $S::<f64, u64, FnvHasher>::new(m, BuildHasherDefault::<FnvHasher>::default());
+                            let mut d2 = $S::<f64, u64, FnvHasher>::new(m, BuildHasherDefault::<FnvHasher>::default());
+                            for it in &items[..cut] { d1.sketch(it); d2.sketch(it); }
+                            if finish_first && cut > 0 { let _ = d1.end_sketch(); let _ = d2.end_sketch(); }
+                            let _ = d1.sketch_slice(&items[cut..]);
+                            for it in &items[cut..] { d2.sketch(it); }
+                            let _ = d2.end_sketch();
+                            (d1.get_hsketch_u64(), d2.get_hsketch_u64(), d1.get_hsketch().iter().map(|x| x.to_bits() as u64).collect::<Vec<u64>>(), d2.get_hsketch().iter().map(|x| x.to_bits() as u64).collect::<Vec<u64>>())
+                        }));
+                        let inp2 = json!({"m": m, "history": {"sketch": vj(&items[..cut]), "then_end_sketch": finish_first && cut > 0}, "slice": vj(&items[cut..])});
+                        if cut < items.len() {
+                            match r {
+                                Err(_) => { v.push(("dens-slice-vs-itemwise".into(), format!("{}: after {} item(s){}, sketch_slice of {} items or the same items one by one and end_sketch panics (m={})", stringify!($S), cut, if finish_first && cut > 0 { " and end_sketch" } else { "" }, items.len() - cut, m))); reinit_inputs.push(inp2); }
+                                Ok((u1, u2, f1, f2)) => if u1 != u2 || f1 != f2 {
+                                    v.push(("dens-slice-vs-itemwise".into(), format!("{}: after {} item(s){}, sketch_slice of {} items differs from the same items streamed one by one and end_sketch (m={})", stringify!($S), cut, if finish_first && cut > 0 { " and end_sketch" } else { "" }, items.len() - cut, m)));
+                                    reinit_inputs.push(inp2);
+                                }
+                            }
+                        }
+                    }};
+                }
+                slice_vs_itemwise!(OptDensMinHash);
+                slice_vs_itemwise!(RevOptDensMinHash);
+            }
             // densified sketchers: item-wise + end_sketch (twice) = one slice; order free; views
             let (f1, u1, w1) = dens_views!(OptDensMinHash, f32, IdHasher, m, &items, true);
             let (f2, u2, w2) = dens_views!(OptDensMinHash, f32, IdHasher, m, &re, false);
@@ -753,10 +966,20 @@ pub fn props(args: &[String]) {
                     if x != w[p] { v.push(("dens-u32".into(), format!("{}: the u32 view is not murmur3_32(seed 127) of the u64 view at position {}", name, p))); }
                 }
             }
-            v
+            (v, reinit_inputs)
         }));
         match r {
-            Ok(v) => for (k, t) in v { add(&k, t, inp.clone()); },
+            Ok((v, extra)) => {
+                let mut ei = 0;
+                for (k, t) in v {
+                    if k.starts_with("reinit-") || k == "dens-resume" || k == "dens-slice-vs-itemwise" {
+                        add(&k, t, extra.get(ei).cloned().unwrap_or(inp.clone()));
+                        ei += 1;
+                    } else {
+                        add(&k, t, inp.clone());
+                    }
+                }
+            }
             Err(_) => add("panic", format!("a sketcher panicked (m={}, {} items)", m, items.len()), inp.clone()),
         }
     }
@@ -797,6 +1020,7 @@ pub fn mc(args: &[String]) {
                 let ids: Vec<u64> = (0..(a_only + both + b_only)).map(|_| rng.next_u64() >> 4).collect();
                 let a: Vec<u64> = ids[..a_only + both].to_vec();
                 let b: Vec<u64> = ids[a_only..].to_vec();
+                crate::util::tick_idx(0, json!({"m": m, "a": vj(&a), "b": vj(&b)}));
                 let sa = smh_sketch_of!(f64, FnvHasher, m, vec![a.clone()]);
                 let sb = smh_sketch_of!(f64, FnvHasher, m, vec![b.clone()]);
                 sums[0] += sa.iter().zip(sb.iter()).filter(|(x, y)| x == y).count() as f64 / m as f64;
